@@ -31,6 +31,7 @@ const (
 	PFirstSessionCut
 	PSlicedPayloads
 	PReceiverStall
+	PSenderReconnected
 )
 
 var ProbeNames = map[int]string{
@@ -48,6 +49,7 @@ var ProbeNames = map[int]string{
 	PFirstSessionCut:        "first_of_two_sessions_cut_inside_a_frame",
 	PSlicedPayloads:         "payloads_are_adjacent_subslices_of_one_buffer",
 	PReceiverStall:          "receiver_not_reading_for_seconds_while_several_senders_send",
+	PSenderReconnected:      "sender_opened_a_further_connection_on_its_own",
 }
 
 const maxLen = 0x1FFFF
@@ -462,6 +464,7 @@ func Run(seed uint64, index int64, o hx.Opts) *hx.Result {
 
 	// sliced payloads: what the sender passes to Send are adjacent sub-slices of one buffer, each with spare capacity
 	// behind it (the next payload); Send must leave every byte of the caller's memory as it found it
+	var extraWires [][]byte // sut-sends: bytes received on connections the sender opened on its own after the first
 	var arenas, pristines [][]byte
 	sendable := func(fs [][]byte) [][]byte {
 		if pl == nil || !pl.sliced {
@@ -816,8 +819,27 @@ func Run(seed uint64, index int64, o hx.Opts) *hx.Result {
 					wire = append(wire, buf[:n]...)
 					if err != nil {
 						c.Close()
+						break
+					}
+				}
+				// a sender that connects again on its own (after the peer reset the connection, say) is listened
+				// to as well: whatever it sends on a new connection has to start at a frame boundary
+				for {
+					c2, err := ln.Accept()
+					if err != nil {
 						return
 					}
+					rt.Probe(PSenderReconnected)
+					var w2 []byte
+					for {
+						n, err := c2.Read(buf)
+						w2 = append(w2, buf[:n]...)
+						if err != nil {
+							c2.Close()
+							break
+						}
+					}
+					extraWires = append(extraWires, w2)
 				}
 			})
 			sut := rt.GoHarness("sender", "10.0.0.1", func() {
@@ -833,8 +855,8 @@ func Run(seed uint64, index int64, o hx.Opts) *hx.Result {
 				tr.Close()
 			})
 			rt.Join(sut, -1)
-			rt.Join(peer, -1)
 			ln.Close()
+			rt.Join(peer, -1)
 
 		case WireMulti:
 			for f, l := range pl.lens2 {
@@ -1048,6 +1070,32 @@ func Run(seed uint64, index int64, o hx.Opts) *hx.Result {
 		}
 		if bad != nil {
 			bad.Msg = desc + "\n" + bad.Msg
+		}
+	}
+	if v == nil && bad == nil {
+		for _, w2 := range extraWires {
+			// every message on a further connection is a whole frame of one of the payloads (the last may be cut short)
+			pos := 0
+			for pos < len(w2) && bad == nil {
+				okf := false
+				if len(w2)-pos >= 4 && w2[pos] == 0 && w2[pos+1]&0xFE == 0 {
+					l := int(w2[pos+1]&1)<<16 | int(w2[pos+2])<<8 | int(w2[pos+3])
+					for _, p := range frames {
+						if len(p) == l && bytes.HasPrefix(p, w2[pos+4:min(len(w2), pos+4+l)]) {
+							okf = true
+						}
+					}
+					if okf {
+						pos += 4 + l
+					}
+				} else if len(w2)-pos < 4 {
+					break // a header cut short by the end of the connection
+				}
+				if !okf {
+					bad = &hx.Violation{Class: "wire_format", Key: "reconnect",
+						Msg: fmt.Sprintf("%s\nthe sender opened a further connection on its own and sent %d bytes on it; at offset %d they are not a session message carrying one of the payloads: % x", desc, len(w2), pos, window(w2, pos))}
+				}
+			}
 		}
 	}
 	if v == nil && bad == nil {
